@@ -16,6 +16,7 @@ pub mod c06;
 pub mod c07;
 pub mod c08;
 pub mod c10;
+pub mod c11;
 pub mod c12;
 pub mod c17;
 pub mod c13;
@@ -32,6 +33,7 @@ pub fn units(prop: &str, tier: Tier, seed: u64) -> Option<(Vec<Unit>, Meta)> {
         "C07" => (c07::units(tier, seed), c07::meta()),
         "C08" => (c08::units(tier, seed), c08::meta()),
         "C10" => (c10::units(tier, seed), c10::meta()),
+        "C11" => (c11::units(tier, seed), c11::meta()),
         "C12" => (c12::units(tier, seed), c12::meta()),
         "C13" => (c13::units(tier, seed), c13::meta()),
         "C17" => (c17::units(tier, seed), c17::meta()),
